@@ -1222,3 +1222,92 @@ Proof.
   exists tl. split; [exact Htl|].
   rewrite E. clear E. vm_compute. reflexivity.
 Qed.
+
+(* ================================================================================================== *)
+(* added from Properties/C12_add2.v (2026-10-01): the line-comment pass after repair 367ec9c        *)
+(* ================================================================================================== *)
+(* C12 (addition 2): the repaired line comment pass replaces the comment where it was found. *)
+From Coq Require Import String.   (* string literals of the examples; imported first so the list names win *)
+From Coq Require Import NArith ZArith List Bool.
+From DictIO Require Import Chars Str Value Scalar SDict Layout Lexer LayoutSpec LineCommentFix.
+Import ListNotations.
+
+(* Whenever the line comment pass lifts a comment out of a line, the line is rebuilt as
+   line[:match.start()] + placeholder + line[match.end():]: with (body, nl) the line without / its final line feed,
+   body = before ++ cmt where cmt begins with two slashes and reaches to the end of the body, before holds no pair of
+   slashes that the scanner accepts (none that no colon precedes), and the new line is before, the placeholder of the
+   next counter value (nothing with comments off), nl.  In particular before is kept VERBATIM: a URL in a value
+   (colon, two slashes) that stands in front of the comment is untouched, whatever the comment text is. *)
+Theorem C12_line_comment_replaced_in_place : forall comments c l l' c' i cmt,
+  extract_line_comment comments c l = (l', c', Some (i, cmt)) ->
+  let body := fst (chomp_lf l) in
+  let nl := snd (chomp_lf l) in
+  exists before,
+    body = before ++ cmt /\
+    (exists rest, cmt = c_slash :: c_slash :: rest) /\
+    find_comment false [] before = None /\
+    l' = before ++ (if comments then placeholder w_LINECOMMENT i else []) ++ nl /\
+    l = before ++ cmt ++ nl /\ (nl = [] \/ nl = [c_lf]) /\
+    c' = counter_next c /\ i = Z.to_N c'.
+Proof. exact line_comment_replaced_in_place. Qed.
+Print Assumptions C12_line_comment_replaced_in_place.
+
+(* non-vacuity, on the witness of the repaired defect: the comment text is just the two slashes, which also occur
+   in the URL of the value in front of it.  str.replace put a placeholder into the URL as well; now the value keeps
+   its slashes and the one placeholder stands where the comment stood. *)
+Example C12_line_comment_replaced_in_place_nonvacuous :
+  let l := of_string "a 'https://x.org/p'; //" ++ [c_lf] in
+  let cmt := of_string "//" in
+  extract_line_comment true 0 l = (of_string "a 'https://x.org/p'; LINECOMMENT000001" ++ [c_lf], 1%Z, Some (1%N, cmt)) /\
+  extract_line_comment false 0 l = (of_string "a 'https://x.org/p'; " ++ [c_lf], 1%Z, Some (1%N, cmt)) /\
+  exists before,
+    fst (chomp_lf l) = before ++ cmt /\ before = of_string "a 'https://x.org/p'; " /\
+    find_comment false [] before = None.
+Proof.
+  intros l cmt.
+  assert (H1 : extract_line_comment true 0 l =
+               (of_string "a 'https://x.org/p'; LINECOMMENT000001" ++ [c_lf], 1%Z, Some (1%N, cmt))) by (vm_compute; reflexivity).
+  assert (H2 : extract_line_comment false 0 l = (of_string "a 'https://x.org/p'; " ++ [c_lf], 1%Z, Some (1%N, cmt)))
+    by (vm_compute; reflexivity).
+  split; [exact H1|]. split; [exact H2|].
+  destruct (C12_line_comment_replaced_in_place true 0 l _ _ _ _ H1) as (before & Eb & _ & Hn & _).
+  exists before. split; [exact Eb|]. split; [|exact Hn].
+  assert (E : fst (chomp_lf l) = of_string "a 'https://x.org/p'; " ++ cmt) by (vm_compute; reflexivity).
+  rewrite E in Eb. symmetry. exact (app_inv_tail cmt _ _ Eb).
+Qed.
+
+(* the converse, for a given line: C12_extract_line_comment with slashes allowed in front of the comment.  What is asked
+   of before is only that the scanner finds no pair of slashes in before followed by one more slash (the first slash of
+   the comment could pair with a final slash of before; pairs directly after a colon do not count) and that before does
+   not end with a colon.  no_slash before (the side condition of C12_extract_line_comment) is a special case
+   (LineCommentFix.lcf_no_slash_find).  Under str.replace this statement was false (the witness below). *)
+Theorem C12_extract_line_comment_after_slashes : forall comments (before rest nl : list N) count,
+  find_comment false [] (before ++ [c_slash]) = None -> no_colon_end before -> no_lf rest -> no_lf before -> line_end nl ->
+  extract_line_comment comments count (before ++ (c_slash :: c_slash :: rest) ++ nl) =
+    (before ++ (if comments then placeholder w_LINECOMMENT (Z.to_N (counter_next count)) else []) ++ nl,
+     counter_next count, Some (Z.to_N (counter_next count), c_slash :: c_slash :: rest)).
+Proof. exact line_comment_after_slashes. Qed.
+Print Assumptions C12_extract_line_comment_after_slashes.
+
+(* non-vacuity: a URL and a path with single slashes in front of the comment, the comment holds a URL and a second pair
+   of slashes; counter just before the wrap-around *)
+Example C12_extract_line_comment_after_slashes_nonvacuous :
+  let before := of_string "a 'https://x.org/p'; b /usr/lib/; " in
+  let rest := of_string " see http://y.z // again" in
+  let nl := [c_lf] in
+  find_comment false [] (before ++ [c_slash]) = None /\ no_colon_end before /\ no_lf rest /\ no_lf before /\ line_end nl /\
+  has_char c_slash before = true /\
+  extract_line_comment true 999999 (before ++ c_slash :: c_slash :: rest ++ nl) =
+    (of_string "a 'https://x.org/p'; b /usr/lib/; LINECOMMENT000000" ++ nl, 0%Z, Some (0%N, c_slash :: c_slash :: rest)).
+Proof.
+  intros before rest nl.
+  assert (H1 : find_comment false [] (before ++ [c_slash]) = None) by (vm_compute; reflexivity).
+  assert (H2 : no_colon_end before) by (vm_compute; reflexivity).
+  assert (H3 : no_lf rest) by (vm_compute; reflexivity).
+  assert (H4 : no_lf before) by (vm_compute; reflexivity).
+  assert (H5 : line_end nl) by (right; reflexivity).
+  repeat (split; [assumption|]).
+  split; [vm_compute; reflexivity|].
+  pose proof (C12_extract_line_comment_after_slashes true before rest nl 999999 H1 H2 H3 H4 H5) as E.
+  cbn [app] in E. rewrite E. vm_compute. reflexivity.
+Qed.
